@@ -239,6 +239,21 @@ def expected_model(spec: dict, outcomes: list) -> list:
                     l.header_id = op['value']
                 elif op['field'] == 'sequence_number':
                     l.seq = op['value']
+        elif kind == 'inplace':
+            if ok and op['target'] in objs:
+                o = objs[op['target']]
+                lab, k, multi = schema.attr_table(o.op)[op['kw']]
+                a = o.attrs[lab]
+                if isinstance(a.value, list):
+                    if op['how'] == 'pop':
+                        a.value = a.value[:-1]
+                    elif op['how'] == 'dup':
+                        a.value = a.value + a.value[:1]
+                    else:
+                        a.value = []
+                    if not a.value:             # an empty value list is an absent attribute
+                        a.value = None
+                        a.assigned = False
         elif kind == 'rename_set':
             if ok and op['target'] in objs:
                 t_ = objs[op['target']]
